@@ -292,10 +292,19 @@ func c12Impl(c lib.Case) []string {
 		case "opack":
 			out = append(out, r.issue(func() string {
 				before := r.ctl.n.Load()
-				err := store.AddOperatorSnapshot(&snapshotpb.OperatorCheckpoint{
+				req := &snapshotpb.OperatorCheckpoint{
 					CheckpointId: u(2), OperatorId: "op" + f[1], DkvFileUri: fmt.Sprintf("op%s/ckpt-%s", f[1], f[3]),
 					KeyGroupRange: &snapshotpb.KeyGroupRange{Start: 0, End: 1},
-				})
+				}
+				if len(f) > 4 { // unusual payloads
+					switch f[4] {
+					case "nokgr":
+						req.KeyGroupRange = nil
+					case "emptykgr":
+						req.KeyGroupRange = &snapshotpb.KeyGroupRange{}
+					}
+				}
+				err := store.AddOperatorSnapshot(req)
 				return r.afterAck(err, before, u(2))
 			}))
 		case "srack":
@@ -560,7 +569,12 @@ func c12Gen(r *lib.Rng, tier string, _ int) lib.Case {
 				op = 9 // foreign sender
 			}
 			cp := pickID()
-			c.Ops = append(c.Ops, fmt.Sprintf("opack %d %d %d", op, cp, r.Intn(50)))
+			odd := ""
+			if r.Chance(1, 7) {
+				odd = lib.Pick(r, []string{" nokgr", " nokgr", " emptykgr"})
+				c.Tags = append(c.Tags, "odd-payload")
+			}
+			c.Ops = append(c.Ops, fmt.Sprintf("opack %d %d %d%s", op, cp, r.Intn(50), odd))
 			if ref.pending && cp == ref.cid {
 				if d, ok := ref.ops[op]; ok && !d {
 					ref.ops[op] = true
@@ -681,6 +695,12 @@ func c12Fixed(tier string) []lib.Case {
 		{Header: "M C12", Tags: []string{"D49", "sprestart", "published", "restart"}, Ops: []string{
 			"savepoint - 1", "srack 1 1 4", "create 1 1", "opack 1 2 0", "srack 1 2 5", "create 1 1", "opack 1 3 0", "srack 1 3 6",
 			"sprestart 1 same", "current", "create 1 1", "opack 1 4 9", "srack 1 4 9", "restart", "current", "create 1 1"}},
+		// seeded C12-5 (an ack whose payload the store refuses still counted towards completion): an ack without key
+		// group range is recorded like any other; the checkpoint has exactly one entry per operator; a retry is a duplicate
+		{Header: "M C12", Tags: []string{"odd-payload", "published", "bad-ack"}, Ops: []string{
+			"create 1,2 1", "opack 1 1 3 nokgr", "opack 2 1 4", "srack 1 1 5", "opack 1 1 6", "current"}},
+		{Header: "M C12", Tags: []string{"odd-payload", "published"}, Ops: []string{
+			"create 1 1", "srack 1 1 -", "opack 1 1 3 emptykgr", "create 1 -", "opack 1 2 4 nokgr", "current", "restart", "current"}},
 		// savepoint folds into the pending checkpoint; second request refused
 		{Header: "M C12", Tags: []string{"published"}, Ops: []string{
 			"create 1 1", "savepoint 1 1", "savepoint 1 1", "create 1 1", "opack 1 1 0", "srack 1 1 1", "savepoint - -", "opack 5 2 0", "current"}},
